@@ -28,6 +28,12 @@ def row_deps_model(reply, case):
     return out
 
 
+def same(a, b):
+    """unchanged up to the last bits (vectorised elementary functions may round a lane differently when OTHER lanes change)"""
+    a, b = np.asarray(a, dtype=float), np.asarray(b, dtype=float)
+    return a.shape == b.shape and np.allclose(a, b, rtol=1e-11, atol=1e-13, equal_nan=True)
+
+
 def row_deps_impl(case, est, what='transform', Y=None):
     """perturb one input row at a time; which output rows move"""
     X = st.X_of(case) if Y is None else Y
@@ -37,10 +43,10 @@ def row_deps_impl(case, est, what='transform', Y=None):
     deps = [set() for _ in range(base.shape[0])]
     for i in range(X.shape[0]):
         Xp = X.copy()
-        Xp[i, ep:] = Xp[i, ep:] * 1.37 + 0.211
+        Xp[i, ep:] = (Xp[i, ep:] * 3 + 7) if Xp.dtype.kind in 'iu' else (Xp[i, ep:] * 1.37 + 0.211)   # never a fixed point
         out = f(Xp)
         for k in range(base.shape[0]):
-            if not np.array_equal(out[k, ep:], base[k, ep:]):
+            if not same(out[k, ep:], base[k, ep:]):
                 deps[k].add(i)
     labels = [int(r[0]) if ep else 0 for r in base]
     return list(zip(labels, deps))
@@ -204,7 +210,7 @@ def run(ctx):
                 bad.append(c)
                 continue
             for k, ((li, a), (lm, b)) in enumerate(zip(di, dm)):
-                if li != lm or not (a <= b) or (algebraic and what == 'transform' and a != b):
+                if li != lm or not (a <= b) or (algebraic and what == 'transform' and a != b and not c.get('degenerate')):
                     ctx.mismatch(f'{what}: provenance of output row {k}', c, [li, sorted(a)], [lm, sorted(b)])
                     bad.append(c)
                     break
